@@ -1,6 +1,7 @@
 package props
 
 import (
+	"encoding/base64"
 	"bufio"
 	"bytes"
 	"encoding/json"
@@ -58,6 +59,7 @@ func (p *c15) Cases(tier string, emit func(interface{})) {
 	}
 	emit(c15Case{Part: "lists", Schema: "base"})
 	emit(c15Case{Part: "funcs", Schema: "base"})
+	emit(c15Case{Part: "binarylist", Schema: "types"})
 	emit(c15Case{Part: "faults", Schema: "base"})
 	emit(c15Case{Part: "faults", Schema: "types"})
 	emit(c15Case{Part: "deep", Schema: "deep"})
@@ -638,6 +640,63 @@ func (p *c15) Run(raw json.RawMessage) eng.Result {
 			c15Tree(c, m, t, "tree two", &res, ss, starts, []string{"compact", "pretty+enumids+qualified"}, fn)
 		}
 		res.Outcomes = []string{"funcs"}
+	case "binarylist":
+		// the library's own list type for binary values, as a node may hand it to the writer
+		for _, bl := range []val.BinaryList{{{1, 2, 3}}, {{255}, {}, {0, 16, 32, 48}}, {}} {
+			var want []string
+			for _, b := range bl {
+				want = append(want, base64.StdEncoding.EncodeToString(b))
+			}
+			n := &nodeutil.Basic{OnField: func(node.FieldRequest, *node.ValueHandle) error { return nil }}
+			n.OnChild = func(r node.ChildRequest) (node.Node, error) {
+				if r.Meta.Ident() == "v" {
+					return &nodeutil.Basic{OnField: func(fr node.FieldRequest, hnd *node.ValueHandle) error {
+						if fr.Meta.Ident() == "lbin" {
+							hnd.Val = bl
+						}
+						return nil
+					}}, nil
+				}
+				return nil, nil
+			}
+			for _, cfg := range []string{"compact", "pretty"} {
+				var text string
+				var err error
+				fr, msg, pan := eng.Recover(func() { text, err = jsonWtr(cfg).JSON(node.NewBrowser(m, n).Root()) })
+				res.Evals++
+				res.Nontriv++
+				site := "C15/leaf:binary-list-value-type"
+				if pan {
+					ss.add(site+"/panic:"+fr, msg)
+					continue
+				}
+				if err != nil {
+					if !strings.Contains(err.Error(), "binary") {
+						ss.add("C15/harness/binarylist", err.Error())
+					}
+					continue // refusing the value is fine, malformed output is not
+				}
+				v, sym := decodeOne(text)
+				if sym != "" {
+					ss.add(site+"/"+sym, text)
+					continue
+				}
+				var got []string
+				if obj, ok := v.(map[string]interface{}); ok {
+					if vv, ok := obj["v"].(map[string]interface{}); ok {
+						if arr, ok := vv["lbin"].([]interface{}); ok {
+							for _, x := range arr {
+								got = append(got, fmt.Sprint(x))
+							}
+						}
+					}
+				}
+				if strings.Join(got, ",") != strings.Join(want, ",") {
+					ss.add(site+"/different-content", fmt.Sprintf("wrote %s for %v", text, want))
+				}
+			}
+		}
+		res.Outcomes = []string{"binarylist"}
 	case "faults":
 		var docs []string
 		if c.Schema == "base" {
